@@ -5,40 +5,80 @@ import Mathlib.Tactic.Linarith
 import Mathlib.Tactic.Ring
 namespace NautilusVerif.PriorModel
 
+def keyOf (p : Prior) : KeyArg → Except Outcome String
+  | .auto => .ok (autoKey p.keys.length)
+  | .nonStr => .error .typeError
+  | .str s => .ok s
+
+def distOf (p : Prior) : DistArg → Except Outcome Dist
+  | .range a b => .ok (.free a (b - a))
+  | .number v => .ok (.fixed v)
+  | .isf a b => .ok (.free a b)
+  | .link s =>
+    if s ∉ p.keys then .error .valueError
+    else match resolve p.keys p.dists (p.dists.length + 1) s with
+      | none => .error .indexError
+      | some t => .ok (.link t)
+  | .other => .error .typeError
+
+theorem add_eq (p : Prior) (k : KeyArg) (d : DistArg) :
+    add p k d = match keyOf p k with
+      | .error e => (p, e)
+      | .ok key => if key ∈ p.keys then (p, .valueError) else
+        match distOf p d with
+        | .error e => (p, e)
+        | .ok dist => ({ keys := p.keys ++ [key], dists := p.dists ++ [dist] }, .ok) := by
+  cases k <;> cases d <;> rfl
+
+theorem keyOf_error {p : Prior} {k : KeyArg} {e : Outcome} (h : keyOf p k = .error e) : e = .typeError := by
+  cases k <;> simp_all [keyOf]
+
+theorem distOf_error {p : Prior} {d : DistArg} {e : Outcome} (h : distOf p d = .error e) : e ≠ .ok := by
+  cases d with
+  | link s =>
+    by_cases hs : s ∈ p.keys
+    · cases hr : resolve p.keys p.dists (p.dists.length + 1) s <;> simp [distOf, hs, hr] at h
+      subst h; simp
+    · simp [distOf, hs] at h; subst h; simp
+  | other => simp [distOf] at h; subst h; simp
+  | _ => simp [distOf] at h
+
+/-- what a successful `add` appends -/
+def DistOf (p : Prior) : DistArg → Dist → Prop
+  | .range a b, dist => dist = .free a (b - a)
+  | .number v, dist => dist = .fixed v
+  | .isf a b, dist => dist = .free a b
+  | .link s, dist => s ∈ p.keys ∧ ∃ t, resolve p.keys p.dists (p.dists.length + 1) s = some t ∧ dist = .link t
+  | .other, _ => False
+
+theorem distOf_ok {p : Prior} {d : DistArg} {dist : Dist} (h : distOf p d = .ok dist) : DistOf p d dist := by
+  cases d with
+  | link s =>
+    by_cases hs : s ∈ p.keys
+    · cases hr : resolve p.keys p.dists (p.dists.length + 1) s <;> simp [distOf, hs, hr] at h
+      subst h; exact ⟨hs, _, hr, rfl⟩
+    · simp [distOf, hs] at h
+  | other => simp [distOf] at h
+  | _ => simp [distOf] at h; subst h; simp [DistOf]
+
+theorem add_spec (p : Prior) (k : KeyArg) (d : DistArg) :
+    (∃ e, e ≠ Outcome.ok ∧ add p k d = (p, e)) ∨
+    ∃ key dist, key ∉ p.keys ∧ keyOf p k = .ok key ∧ distOf p d = .ok dist ∧
+      add p k d = ({ keys := p.keys ++ [key], dists := p.dists ++ [dist] }, .ok) := by
+  rw [add_eq]
+  cases hk : keyOf p k with
+  | error e => left; exact ⟨e, by rw [keyOf_error hk]; simp, rfl⟩
+  | ok key =>
+    by_cases hmem : key ∈ p.keys
+    · left; exact ⟨.valueError, by simp, by simp [hmem]⟩
+    · cases hd : distOf p d with
+      | error e => left; exact ⟨e, distOf_error hd, by simp [hmem]⟩
+      | ok dist => right; exact ⟨key, dist, hmem, rfl, rfl, by simp [hmem]⟩
+
 theorem add_atomic (p : Prior) (k : KeyArg) (d : DistArg) (h : (add p k d).2 ≠ .ok) : (add p k d).1 = p := by
-  sorry
-
-theorem exec_wf (ops : List (KeyArg × DistArg)) :
-    (exec {} ops).keys.Nodup ∧ (exec {} ops).keys.length = (exec {} ops).dists.length ∧
-    ∀ (i : Nat) (t : String), (exec {} ops).dists[i]? = some (Dist.link t) →
-      ∃ j : Nat, j < i ∧ (exec {} ops).keys[j]? = some t ∧ ∃ d : Dist, (exec {} ops).dists[j]? = some d ∧ d.isLink = false := by
-  sorry
-
-theorem dim_step (p : Prior) (k : KeyArg) (d : DistArg) :
-    dimensionality ({} : Prior) = 0 ∧
-    ((add p k d).2 = .ok →
-      dimensionality (add p k d).1 = dimensionality p +
-        (match d with | .range _ _ => 1 | .isf _ _ => 1 | _ => 0)) ∧
-    ((add p k d).2 ≠ .ok → dimensionality (add p k d).1 = dimensionality p) := by
-  sorry
-
-theorem physical_spec (p : Prior) (u : List Rat) (h : u.length = dimensionality p) :
-    unitToPhysical p u = .ok (List.zipWith (fun (ab : Rat × Rat) x => ab.1 + ab.2 * x)
-      (p.dists.filterMap (fun d => match d with | .free a b => some (a, b) | _ => none)) u) := by
-  sorry
-
-theorem dict_spec (ops : List (KeyArg × DistArg)) (u : List Rat)
-    (h : u.length = dimensionality (exec {} ops)) (hpos : 0 < u.length) :
-    ∃ d, unitToDictionary (exec {} ops) u = .ok d ∧ (d.map (·.1)).Perm (exec {} ops).keys ∧
-      ∀ k, lookup d k = lookup (Spec.eval (toDecls (exec {} ops).keys (exec {} ops).dists) u []) k := by
-  sorry
-
-theorem link_value (ops : List (KeyArg × DistArg)) (u : List Rat)
-    (h : u.length = dimensionality (exec {} ops))
-    (d : List (String × Rat)) (hd : unitToDictionary (exec {} ops) u = .ok d) (i : Nat) (k t : String)
-    (hk : (exec {} ops).keys[i]? = some k) (ht : (exec {} ops).dists[i]? = some (Dist.link t)) :
-    lookup d k = lookup d t ∧ (lookup d t).isSome := by
-  sorry
+  rcases add_spec p k d with ⟨e, _, he⟩ | ⟨key, dist, _, _, _, he⟩
+  · rw [he]
+  · rw [he] at h; exact absurd rfl h
 
 theorem add_rejects (p : Prior) (d : DistArg) (s : String) :
     (add p .nonStr d).2 = .typeError ∧
@@ -47,14 +87,667 @@ theorem add_rejects (p : Prior) (d : DistArg) (s : String) :
     (s ∉ p.keys → (add p (.str s) .other).2 = .typeError) ∧
     (s ∉ p.keys → ∀ t, t ∉ p.keys → (add p (.str s) (.link t)).2 = .valueError) ∧
     (s ∉ p.keys → (add p (.str s) (.link s)).2 = .valueError) := by
-  sorry
+  refine ⟨?_, ?_, ?_, ?_, ?_, ?_⟩
+  · rw [add_eq]; simp [keyOf]
+  · intro h; rw [add_eq]; simp [keyOf, h]
+  · intro h; rw [add_eq]; simp [keyOf, h]
+  · intro h; rw [add_eq]; simp [keyOf, distOf, h]
+  · intro h t ht; rw [add_eq]; simp [keyOf, distOf, h, ht]
+  · intro h; rw [add_eq]; simp [keyOf, distOf, h]
 
-theorem add_no_indexError (ops : List (KeyArg × DistArg)) (k : KeyArg) (d : DistArg) :
-    (add (exec {} ops) k d).2 ≠ .indexError := by
-  sorry
+theorem dim_step (p : Prior) (k : KeyArg) (d : DistArg) :
+    dimensionality ({} : Prior) = 0 ∧
+    ((add p k d).2 = .ok →
+      dimensionality (add p k d).1 = dimensionality p +
+        (match d with | .range _ _ => 1 | .isf _ _ => 1 | _ => 0)) ∧
+    ((add p k d).2 ≠ .ok → dimensionality (add p k d).1 = dimensionality p) := by
+  refine ⟨rfl, ?_, fun h => by rw [add_atomic p k d h]⟩
+  intro h
+  rcases add_spec p k d with ⟨e, hne, he⟩ | ⟨key, dist, _, _, hd, he⟩
+  · rw [he] at h; exact absurd h hne
+  · rw [he]
+    have := distOf_ok hd
+    cases d <;> simp only [DistOf] at this
+    · subst this; simp [dimensionality, List.filter_append, List.filter, Dist.isFree]
+    · subst this; simp [dimensionality, List.filter_append, List.filter, Dist.isFree]
+    · subst this; simp [dimensionality, List.filter_append, List.filter, Dist.isFree]
+    · obtain ⟨_, t, _, rfl⟩ := this; simp [dimensionality, List.filter_append, List.filter, Dist.isFree]
 
 theorem range_shape (a b : Rat) (h : a < b) :
     (∀ u v : Rat, u < v → a + (b - a) * u < a + (b - a) * v) ∧ a + (b - a) * 0 = a ∧ a + (b - a) * 1 = b := by
-  sorry
+  refine ⟨fun u v huv => ?_, by ring, by ring⟩
+  have := mul_lt_mul_of_pos_left huv (sub_pos.mpr h)
+  linarith
+
+
+/-! ### well-formedness invariant -/
+def WF (p : Prior) : Prop :=
+  p.keys.Nodup ∧ p.keys.length = p.dists.length ∧
+  ∀ (i : Nat) (t : String), p.dists[i]? = some (Dist.link t) →
+    ∃ j : Nat, j < i ∧ p.keys[j]? = some t ∧ ∃ d : Dist, p.dists[j]? = some d ∧ d.isLink = false
+
+theorem idxOf_of_getElem? {ks : List String} (hn : ks.Nodup) {j : Nat} {t : String}
+    (h : ks[j]? = some t) : ks.idxOf t = j := by
+  obtain ⟨hj, rfl⟩ := List.getElem?_eq_some_iff.mp h
+  exact hn.idxOf_getElem j hj
+
+theorem resolve_nonlink {keys : List String} {dists : List Dist} {n : Nat} {s : String} {d : Dist}
+    (h : dists[keys.idxOf s]? = some d) (hd : d.isLink = false) :
+    resolve keys dists (n + 1) s = some s := by
+  cases d <;> simp_all [resolve, Dist.isLink]
+
+theorem resolve_wf {p : Prior} (hp : WF p) {s : String} (hs : s ∈ p.keys) :
+    ∃ t, resolve p.keys p.dists (p.dists.length + 1) s = some t ∧
+      ∃ j, j < p.keys.length ∧ p.keys[j]? = some t ∧ ∃ d, p.dists[j]? = some d ∧ d.isLink = false := by
+  obtain ⟨hn, hl, hlk⟩ := hp
+  have hj : p.keys.idxOf s < p.keys.length := List.idxOf_lt_length_of_mem hs
+  have hj' : p.keys.idxOf s < p.dists.length := hl ▸ hj
+  obtain ⟨d, hd⟩ : ∃ d, p.dists[p.keys.idxOf s]? = some d := ⟨_, List.getElem?_eq_getElem hj'⟩
+  cases hdl : d.isLink with
+  | false => exact ⟨s, resolve_nonlink hd hdl, _, hj, List.getElem?_idxOf hs, d, hd, hdl⟩
+  | true =>
+    obtain ⟨t, rfl⟩ : ∃ t, d = .link t := by cases d <;> simp_all [Dist.isLink]
+    obtain ⟨j, hji, hkj, d', hd', hdl'⟩ := hlk _ _ hd
+    obtain ⟨m, hm⟩ : ∃ m, p.dists.length = m + 1 := ⟨p.dists.length - 1, by omega⟩
+    refine ⟨t, ?_, j, by omega, hkj, d', hd', hdl'⟩
+    rw [hm, resolve]
+    simp only [hd]
+    apply resolve_nonlink (d := d') _ hdl'
+    rw [idxOf_of_getElem? hn hkj]; exact hd'
+
+theorem wf_empty : WF {} := by
+  refine ⟨List.nodup_nil, rfl, ?_⟩
+  intro i t h; simp at h
+
+theorem wf_add {p : Prior} (hp : WF p) (k : KeyArg) (d : DistArg) : WF (add p k d).1 := by
+  rcases add_spec p k d with ⟨e, _, he⟩ | ⟨key, dist, hkey, _, hd, he⟩
+  · rw [he]; exact hp
+  · rw [he]
+    have hD := distOf_ok hd
+    obtain ⟨hn, hl, hlk⟩ := hp
+    refine ⟨?_, by simp [hl], ?_⟩
+    · show (p.keys ++ [key]).Nodup
+      rw [List.nodup_append]
+      refine ⟨hn, by simp, ?_⟩
+      intro a ha b hb
+      simp at hb; subst hb; rintro rfl; exact hkey ha
+    · intro i t hi
+      show ∃ j, j < i ∧ (p.keys ++ [key])[j]? = some t ∧ ∃ d : Dist, (p.dists ++ [dist])[j]? = some d ∧ d.isLink = false
+      change (p.dists ++ [dist])[i]? = some (Dist.link t) at hi
+      have key_lift : ∀ (j : Nat) (t' : String), j < p.keys.length → p.keys[j]? = some t' → (p.keys ++ [key])[j]? = some t' := by
+        intro j t' hj h; rw [List.getElem?_append_left hj]; exact h
+      have dist_lift : ∀ (j : Nat) (d' : Dist), p.dists[j]? = some d' → (p.dists ++ [dist])[j]? = some d' := by
+        intro j d' h
+        have hj : j < p.dists.length := (List.getElem?_eq_some_iff.mp h).1
+        rw [List.getElem?_append_left hj]; exact h
+      by_cases hlt : i < p.dists.length
+      · rw [List.getElem?_append_left hlt] at hi
+        obtain ⟨j, hji, hkj, d', hd', hdl'⟩ := hlk i t hi
+        exact ⟨j, hji, key_lift j t (by omega) hkj, d', dist_lift j d' hd', hdl'⟩
+      · rw [List.getElem?_append_right (by omega)] at hi
+        have hi0 : i - p.dists.length = 0 := by
+          by_contra hne
+          rw [List.getElem?_eq_none (by simp; omega)] at hi
+          cases hi
+        rw [hi0] at hi
+        simp at hi
+        subst hi
+        cases d <;> simp only [DistOf] at hD
+        all_goals first | (cases hD; done) | skip
+        obtain ⟨hs, t', hres, hEq⟩ := hD
+        cases hEq
+        obtain ⟨t'', hres', j, hj, hkj, d', hd', hdl'⟩ := resolve_wf ⟨hn, hl, hlk⟩ hs
+        rw [hres] at hres'; cases hres'
+        exact ⟨j, by omega, key_lift j _ hj hkj, d', dist_lift j d' hd', hdl'⟩
+
+theorem wf_exec {p : Prior} (hp : WF p) (ops : List (KeyArg × DistArg)) : WF (exec p ops) := by
+  induction ops generalizing p with
+  | nil => exact hp
+  | cons kd ops ih => exact ih (wf_add hp kd.1 kd.2)
+
+theorem exec_wf (ops : List (KeyArg × DistArg)) :
+    (exec {} ops).keys.Nodup ∧ (exec {} ops).keys.length = (exec {} ops).dists.length ∧
+    ∀ (i : Nat) (t : String), (exec {} ops).dists[i]? = some (Dist.link t) →
+      ∃ j : Nat, j < i ∧ (exec {} ops).keys[j]? = some t ∧ ∃ d : Dist, (exec {} ops).dists[j]? = some d ∧ d.isLink = false :=
+  wf_exec wf_empty ops
+
+theorem add_no_indexError (ops : List (KeyArg × DistArg)) (k : KeyArg) (d : DistArg) :
+    (add (exec {} ops) k d).2 ≠ .indexError := by
+  have hp : WF (exec {} ops) := wf_exec wf_empty ops
+  generalize exec {} ops = p at hp
+  rw [add_eq]
+  cases hk : keyOf p k with
+  | error e => rw [keyOf_error hk]; simp
+  | ok key =>
+    by_cases hmem : key ∈ p.keys
+    · simp [hmem]
+    · simp only [hmem, if_false]
+      cases d with
+      | link s =>
+        by_cases hs : s ∈ p.keys
+        · obtain ⟨t, ht, _⟩ := resolve_wf hp hs
+          simp [distOf, hs, ht]
+        · simp [distOf, hs]
+      | _ => simp [distOf]
+
+/-! ### unit_to_physical -/
+theorem physLoop_spec (ds : List Dist) (u : List Rat) (h : u.length = (ds.filter Dist.isFree).length) :
+    physLoop ds u = List.zipWith (fun (ab : Rat × Rat) x => ab.1 + ab.2 * x)
+      (ds.filterMap (fun d => match d with | .free a b => some (a, b) | _ => none)) u := by
+  induction ds generalizing u with
+  | nil => simp [physLoop]
+  | cons d ds ih =>
+    cases d with
+    | free a b =>
+      cases u with
+      | nil => simp [List.filter, Dist.isFree] at h
+      | cons x us =>
+        simp [List.filter, Dist.isFree] at h
+        simp [physLoop, ih us h]
+    | fixed v =>
+      simp [List.filter, Dist.isFree] at h
+      simp [physLoop, ih u h]
+    | link t =>
+      simp [List.filter, Dist.isFree] at h
+      simp [physLoop, ih u h]
+
+theorem physical_spec (p : Prior) (u : List Rat) (h : u.length = dimensionality p) :
+    unitToPhysical p u = .ok (List.zipWith (fun (ab : Rat × Rat) x => ab.1 + ab.2 * x)
+      (p.dists.filterMap (fun d => match d with | .free a b => some (a, b) | _ => none)) u) := by
+  unfold unitToPhysical
+  rw [if_neg (by simp [h]), physLoop_spec p.dists u h]
+
+
+/-! ### dictionaries: lookup / assign -/
+theorem lookup_cons (kv : String × Rat) (d : List (String × Rat)) (k : String) :
+    lookup (kv :: d) k = if kv.1 = k then some kv.2 else lookup d k := by
+  unfold lookup; rw [List.find?_cons]
+  by_cases h : kv.1 = k
+  · have hb : (kv.1 == k) = true := by simp [h]
+    rw [hb, if_pos h]; rfl
+  · have hb : (kv.1 == k) = false := by simp [h]
+    rw [hb, if_neg h]
+
+theorem lookup_append_of_some {d X : List (String × Rat)} {k : String} {v : Rat}
+    (h : lookup d k = some v) : lookup (d ++ X) k = some v := by
+  induction d with
+  | nil => simp [lookup] at h
+  | cons kv d ih =>
+    rw [List.cons_append, lookup_cons]; rw [lookup_cons] at h
+    split_ifs at h ⊢ with hk
+    · exact h
+    · exact ih h
+
+theorem lookup_eq_none {d : List (String × Rat)} {k : String} (h : k ∉ d.map (·.1)) : lookup d k = none := by
+  induction d with
+  | nil => rfl
+  | cons kv d ih =>
+    simp only [List.map_cons, List.mem_cons, not_or] at h
+    rw [lookup_cons, if_neg (fun e => h.1 e.symm)]; exact ih h.2
+
+theorem lookup_eq_some_of_mem {d : List (String × Rat)} {k : String} {v : Rat}
+    (hn : (d.map (·.1)).Nodup) (h : (k, v) ∈ d) : lookup d k = some v := by
+  induction d with
+  | nil => simp at h
+  | cons kv d ih =>
+    simp only [List.map_cons, List.nodup_cons] at hn
+    rw [lookup_cons]
+    rcases List.mem_cons.mp h with rfl | h'
+    · simp
+    · have : kv.1 ≠ k := by
+        rintro rfl; exact hn.1 (List.mem_map.mpr ⟨_, h', rfl⟩)
+      rw [if_neg this]; exact ih hn.2 h'
+
+theorem lookup_isSome_of_mem_keys {d : List (String × Rat)} {k : String} (h : k ∈ d.map (·.1)) :
+    (lookup d k).isSome = true := by
+  induction d with
+  | nil => simp at h
+  | cons kv d ih =>
+    rw [lookup_cons]
+    by_cases hk : kv.1 = k
+    · simp [hk]
+    · rw [if_neg hk]; apply ih
+      simp only [List.map_cons, List.mem_cons] at h
+      rcases h with h | h
+      · exact absurd h.symm hk
+      · exact h
+
+theorem assign_new {d : List (String × Rat)} {k : String} (v : Rat) (h : k ∉ d.map (·.1)) :
+    assign d k v = d ++ [(k, v)] := by
+  unfold assign
+  rw [if_neg]
+  simp only [List.any_eq_true, beq_iff_eq, not_exists, not_and]
+  intro kv hkv hEq
+  exact h (List.mem_map.mpr ⟨kv, hkv, hEq⟩)
+
+/-! ### closed forms of the loops -/
+def baseVals : List String → List Dist → List Rat → List (String × Rat)
+  | k :: ks, .free a b :: ds, x :: us => (k, a + b * x) :: baseVals ks ds us
+  | k :: ks, .fixed v :: ds, us => (k, v) :: baseVals ks ds us
+  | _ :: ks, _ :: ds, us => baseVals ks ds us
+  | _, _, _ => []
+
+def nlKeys : List String → List Dist → List String
+  | k :: ks, d :: ds => if d.isLink then nlKeys ks ds else k :: nlKeys ks ds
+  | _, _ => []
+
+def lkKeys : List String → List Dist → List String
+  | k :: ks, d :: ds => if d.isLink then k :: lkKeys ks ds else lkKeys ks ds
+  | _, _ => []
+
+theorem physLoop_length (ds : List Dist) (u : List Rat) (h : u.length = (ds.filter Dist.isFree).length) :
+    (physLoop ds u).length = (ds.filter Dist.isFree).length := by
+  induction ds generalizing u with
+  | nil => simp [physLoop]
+  | cons d ds ih =>
+    cases d with
+    | free a b =>
+      cases u with
+      | nil => simp [List.filter, Dist.isFree] at h
+      | cons x us =>
+        simp [List.filter, Dist.isFree] at h
+        simp [physLoop, ih us h, List.filter, Dist.isFree]
+    | fixed v =>
+      simp [List.filter, Dist.isFree] at h
+      simp [physLoop, ih u h, List.filter, Dist.isFree]
+    | link t =>
+      simp [List.filter, Dist.isFree] at h
+      simp [physLoop, ih u h, List.filter, Dist.isFree]
+
+theorem dictLoop1_spec (ks : List String) (ds : List Dist) (us : List Rat) (acc : List (String × Rat))
+    (hu : us.length = (ds.filter Dist.isFree).length) (hn : (acc.map (·.1) ++ ks).Nodup) :
+    dictLoop1 ks ds (physLoop ds us) acc = acc ++ baseVals ks ds us := by
+  induction ks generalizing ds us acc with
+  | nil => simp [dictLoop1, baseVals]
+  | cons k ks ih =>
+    have hk : k ∉ acc.map (·.1) := by
+      intro hmem
+      rw [List.nodup_append] at hn
+      exact hn.2.2 k hmem k (List.mem_cons_self) rfl
+    have hn' : ∀ v : Rat, ((acc ++ [(k, v)]).map (·.1) ++ ks).Nodup := by
+      intro v; simpa [List.append_assoc] using hn
+    cases ds with
+    | nil => simp [dictLoop1, baseVals]
+    | cons d ds =>
+      cases d with
+      | free a b =>
+        cases us with
+        | nil => simp [List.filter, Dist.isFree] at hu
+        | cons x us =>
+          simp [List.filter, Dist.isFree] at hu
+          simp only [physLoop, dictLoop1, baseVals]
+          rw [assign_new _ hk, ih ds us _ hu (hn' _)]
+          simp
+      | fixed v =>
+        simp [List.filter, Dist.isFree] at hu
+        simp only [physLoop, dictLoop1, baseVals]
+        rw [assign_new _ hk, ih ds us _ hu (hn' _)]
+        simp
+      | link t =>
+        simp [List.filter, Dist.isFree] at hu
+        have hn'' : (acc.map (·.1) ++ ks).Nodup := by
+          rw [List.nodup_append] at hn ⊢
+          exact ⟨hn.1, (List.nodup_cons.mp hn.2.1).2, fun a ha b hb => hn.2.2 a ha b (List.mem_cons_of_mem _ hb)⟩
+        simp only [physLoop, dictLoop1, baseVals]
+        rw [ih ds us _ hu hn'']
+
+
+theorem baseVals_keys (ks : List String) (ds : List Dist) (us : List Rat)
+    (hu : us.length = (ds.filter Dist.isFree).length) :
+    (baseVals ks ds us).map (·.1) = nlKeys ks ds := by
+  induction ks generalizing ds us with
+  | nil => simp [baseVals, nlKeys]
+  | cons k ks ih =>
+    cases ds with
+    | nil => simp [baseVals, nlKeys]
+    | cons d ds =>
+      cases d with
+      | free a b =>
+        cases us with
+        | nil => simp [List.filter, Dist.isFree] at hu
+        | cons x us =>
+          simp [List.filter, Dist.isFree] at hu
+          simp [baseVals, nlKeys, Dist.isLink, ih ds us hu]
+      | fixed v =>
+        simp [List.filter, Dist.isFree] at hu
+        simp [baseVals, nlKeys, Dist.isLink, ih ds us hu]
+      | link t =>
+        simp [List.filter, Dist.isFree] at hu
+        simp [baseVals, nlKeys, Dist.isLink, ih ds us hu]
+
+theorem nl_lk_perm (ks : List String) (ds : List Dist) (hl : ks.length = ds.length) :
+    (nlKeys ks ds ++ lkKeys ks ds).Perm ks := by
+  induction ks generalizing ds with
+  | nil => simp [nlKeys, lkKeys]
+  | cons k ks ih =>
+    cases ds with
+    | nil => simp at hl
+    | cons d ds =>
+      have hl' : ks.length = ds.length := by simpa using hl
+      simp only [nlKeys, lkKeys]
+      cases d.isLink with
+      | true => simpa using List.perm_middle.trans ((ih ds hl').cons k)
+      | false => simpa using (ih ds hl').cons k
+
+theorem mem_nlKeys {ks : List String} {ds : List Dist} {k : String} {d : Dist}
+    (h : (k, d) ∈ ks.zip ds) (hd : d.isLink = false) : k ∈ nlKeys ks ds := by
+  induction ks generalizing ds with
+  | nil => simp at h
+  | cons k' ks ih =>
+    cases ds with
+    | nil => simp at h
+    | cons d' ds =>
+      simp only [List.zip_cons_cons, List.mem_cons] at h
+      simp only [nlKeys]
+      rcases h with h | h
+      · cases h; simp [hd]
+      · split_ifs
+        · exact ih h
+        · exact List.mem_cons_of_mem _ (ih h)
+
+theorem dictLoop2_spec (B : List (String × Rat)) (ks : List String) (ds : List Dist) (acc : List (String × Rat))
+    (hB : ∃ X, acc = B ++ X)
+    (hl : ∀ k t, (k, Dist.link t) ∈ ks.zip ds → (lookup B t).isSome = true)
+    (hn : (acc.map (·.1) ++ lkKeys ks ds).Nodup) :
+    ∃ Y, dictLoop2 ks ds acc = some (acc ++ Y) ∧ Y.map (·.1) = lkKeys ks ds ∧
+      ∀ k t, (k, Dist.link t) ∈ ks.zip ds → ∃ v, lookup B t = some v ∧ (k, v) ∈ Y := by
+  induction ks generalizing ds acc with
+  | nil => exact ⟨[], by simp [dictLoop2], by simp [lkKeys], by simp⟩
+  | cons k ks ih =>
+    cases ds with
+    | nil => exact ⟨[], by simp [dictLoop2], by simp [lkKeys], by simp⟩
+    | cons d ds =>
+      have hl' : ∀ k' t, (k', Dist.link t) ∈ ks.zip ds → (lookup B t).isSome = true :=
+        fun k' t h => hl k' t (by simp [h])
+      cases d with
+      | link t =>
+        obtain ⟨X, rfl⟩ := hB
+        obtain ⟨v, hv⟩ := Option.isSome_iff_exists.mp (hl k t (by simp))
+        have hacc : lookup (B ++ X) t = some v := lookup_append_of_some hv
+        simp only [lkKeys, Dist.isLink, if_true] at hn
+        have hk : k ∉ (B ++ X).map (·.1) := by
+          intro hmem
+          rw [List.nodup_append] at hn
+          exact hn.2.2 k hmem k (List.mem_cons_self) rfl
+        have hn' : (((B ++ X) ++ [(k, v)]).map (·.1) ++ lkKeys ks ds).Nodup := by
+          simpa [List.append_assoc] using hn
+        obtain ⟨Y, hY, hYk, hYl⟩ := ih ds ((B ++ X) ++ [(k, v)]) ⟨X ++ [(k, v)], by simp⟩ hl' hn'
+        refine ⟨(k, v) :: Y, ?_, ?_, ?_⟩
+        · simp only [dictLoop2, hacc]
+          rw [assign_new _ hk, hY]; simp
+        · simp [lkKeys, Dist.isLink, hYk]
+        · intro k' t' h
+          simp only [List.zip_cons_cons, List.mem_cons] at h
+          rcases h with h | h
+          · cases h; exact ⟨v, hv, List.mem_cons_self⟩
+          · obtain ⟨v', hv', hm⟩ := hYl k' t' h
+            exact ⟨v', hv', List.mem_cons_of_mem _ hm⟩
+      | free a b =>
+        simp only [lkKeys, Dist.isLink] at hn
+        obtain ⟨Y, hY, hYk, hYl⟩ := ih ds acc hB hl' (by simpa using hn)
+        refine ⟨Y, by simp only [dictLoop2, hY], by simp [lkKeys, Dist.isLink, hYk], ?_⟩
+        intro k' t' h
+        simp only [List.zip_cons_cons, List.mem_cons] at h
+        rcases h with h | h
+        · cases h
+        · exact hYl k' t' h
+      | fixed v =>
+        simp only [lkKeys, Dist.isLink] at hn
+        obtain ⟨Y, hY, hYk, hYl⟩ := ih ds acc hB hl' (by simpa using hn)
+        refine ⟨Y, by simp only [dictLoop2, hY], by simp [lkKeys, Dist.isLink, hYk], ?_⟩
+        intro k' t' h
+        simp only [List.zip_cons_cons, List.mem_cons] at h
+        rcases h with h | h
+        · cases h
+        · exact hYl k' t' h
+
+
+theorem mem_zip_of_getElem? {ks : List String} {ds : List Dist} {i : Nat} {k : String} {d : Dist}
+    (hk : ks[i]? = some k) (hd : ds[i]? = some d) : (k, d) ∈ ks.zip ds := by
+  rw [List.mem_iff_getElem?]
+  exact ⟨i, List.getElem?_zip_eq_some.mpr ⟨hk, hd⟩⟩
+
+theorem getElem?_of_mem_zip {ks : List String} {ds : List Dist} {k : String} {d : Dist}
+    (h : (k, d) ∈ ks.zip ds) : ∃ i : Nat, ks[i]? = some k ∧ ds[i]? = some d := by
+  rw [List.mem_iff_getElem?] at h
+  obtain ⟨i, hi⟩ := h
+  exact ⟨i, List.getElem?_zip_eq_some.mp hi⟩
+
+/-- under `WF`, the two loops of `physical_to_dictionary` succeed; closed form of the result -/
+theorem loops_spec {p : Prior} (hp : WF p) (u : List Rat) (h : u.length = dimensionality p) :
+    ∃ Y, dictLoop2 p.keys p.dists (dictLoop1 p.keys p.dists (physLoop p.dists u) []) =
+        some (baseVals p.keys p.dists u ++ Y) ∧
+      ((baseVals p.keys p.dists u ++ Y).map (·.1)).Perm p.keys ∧
+      ∀ k t, (k, Dist.link t) ∈ p.keys.zip p.dists →
+        ∃ v, lookup (baseVals p.keys p.dists u) t = some v ∧ (k, v) ∈ Y := by
+  obtain ⟨hn, hl, hlk⟩ := hp
+  have hkeys := baseVals_keys p.keys p.dists u h
+  have hperm := nl_lk_perm p.keys p.dists hl
+  rw [dictLoop1_spec p.keys p.dists u [] h (by simpa using hn), List.nil_append]
+  have hsome : ∀ k t, (k, Dist.link t) ∈ p.keys.zip p.dists →
+      (lookup (baseVals p.keys p.dists u) t).isSome = true := by
+    intro k t hm
+    obtain ⟨i, _, hdi⟩ := getElem?_of_mem_zip hm
+    obtain ⟨j, _, hkj, d', hd', hdl'⟩ := hlk i t hdi
+    apply lookup_isSome_of_mem_keys
+    rw [hkeys]
+    exact mem_nlKeys (mem_zip_of_getElem? hkj hd') hdl'
+  obtain ⟨Y, hY, hYk, hYl⟩ := dictLoop2_spec (baseVals p.keys p.dists u) p.keys p.dists
+    (baseVals p.keys p.dists u) ⟨[], by simp⟩ hsome (by rw [hkeys]; exact hperm.nodup_iff.mpr hn)
+  refine ⟨Y, hY, ?_, hYl⟩
+  rw [List.map_append, hkeys, hYk]; exact hperm
+
+theorem dict_of_ok {p : Prior} {u : List Rat} {d : List (String × Rat)}
+    (hd : unitToDictionary p u = .ok d) :
+    u.length = dimensionality p ∧
+    dictLoop2 p.keys p.dists (dictLoop1 p.keys p.dists (physLoop p.dists u) []) = some d := by
+  unfold unitToDictionary unitToPhysical at hd
+  by_cases h : dimensionality p = u.length
+  · rw [if_neg (not_not.mpr h)] at hd
+    simp only [physicalToDictionary] at hd
+    split_ifs at hd
+    split at hd
+    · cases hd
+    · rename_i d' hd'
+      cases hd
+      exact ⟨h.symm, hd'⟩
+  · rw [if_pos h] at hd; cases hd
+
+theorem dict_ok {p : Prior} {u : List Rat} {d : List (String × Rat)}
+    (h : u.length = dimensionality p) (hpos : 0 < u.length)
+    (hd : dictLoop2 p.keys p.dists (dictLoop1 p.keys p.dists (physLoop p.dists u) []) = some d) :
+    unitToDictionary p u = .ok d := by
+  have hlen : (physLoop p.dists u).length = dimensionality p := physLoop_length p.dists u h
+  have hne : (physLoop p.dists u).isEmpty = false := by
+    cases hph : physLoop p.dists u with
+    | nil => rw [hph] at hlen; simp at hlen; omega
+    | cons _ _ => rfl
+  unfold unitToDictionary unitToPhysical
+  rw [if_neg (not_not.mpr h.symm)]
+  simp only [physicalToDictionary]
+  rw [if_neg (not_not.mpr hlen.symm), hne, hd]
+  simp
+
+theorem link_value_wf {p : Prior} (hp : WF p) (u : List Rat)
+    (d : List (String × Rat)) (hd : unitToDictionary p u = .ok d) (k t : String)
+    (hm : (k, Dist.link t) ∈ p.keys.zip p.dists) :
+    lookup d k = lookup d t ∧ (lookup d t).isSome := by
+  obtain ⟨h, hd'⟩ := dict_of_ok hd
+  obtain ⟨Y, hY, hperm, hYl⟩ := loops_spec hp u h
+  rw [hY] at hd'; cases hd'
+  obtain ⟨v, hv, hmem⟩ := hYl k t hm
+  have hnd : ((baseVals p.keys p.dists u ++ Y).map (·.1)).Nodup := hperm.nodup_iff.mpr hp.1
+  have h1 : lookup (baseVals p.keys p.dists u ++ Y) t = some v := lookup_append_of_some hv
+  have h2 : lookup (baseVals p.keys p.dists u ++ Y) k = some v :=
+    lookup_eq_some_of_mem hnd (List.mem_append_right _ hmem)
+  rw [h1, h2]; exact ⟨rfl, rfl⟩
+
+theorem link_value (ops : List (KeyArg × DistArg)) (u : List Rat)
+    (h : u.length = dimensionality (exec {} ops))
+    (d : List (String × Rat)) (hd : unitToDictionary (exec {} ops) u = .ok d) (i : Nat) (k t : String)
+    (hk : (exec {} ops).keys[i]? = some k) (ht : (exec {} ops).dists[i]? = some (Dist.link t)) :
+    lookup d k = lookup d t ∧ (lookup d t).isSome := by
+  have _ := h   -- implied by `hd`; kept because the statement is fixed
+  exact link_value_wf (wf_exec wf_empty ops) u d hd k t (mem_zip_of_getElem? hk ht)
+
+
+/-! ### the reference interpreter -/
+def EvalOK (ks : List String) (ds : List Dist) (us : List Rat) (acc E : List (String × Rat)) : Prop :=
+  E.map (·.1) = acc.map (·.1) ++ ks ∧
+  (∃ X, E = acc ++ X) ∧
+  (∀ kv ∈ baseVals ks ds us, kv ∈ E) ∧
+  (∀ k t, (k, Dist.link t) ∈ ks.zip ds → lookup E k = lookup E t ∧ (lookup E t).isSome = true)
+
+theorem evalOK_step {k : String} {ks : List String} {d : Dist} {ds : List Dist} {us us' : List Rat}
+    {acc E : List (String × Rat)} {v : Rat}
+    (IH : EvalOK ks ds us' (acc ++ [(k, v)]) E)
+    (hB : ∀ kv ∈ baseVals (k :: ks) (d :: ds) us, kv = (k, v) ∨ kv ∈ baseVals ks ds us')
+    (hL : ∀ t, d = Dist.link t → lookup acc t = some v)
+    (hn : (acc.map (·.1) ++ k :: ks).Nodup) :
+    EvalOK (k :: ks) (d :: ds) us acc E := by
+  obtain ⟨hk, ⟨X, hX⟩, hb, hlk⟩ := IH
+  have hkeys : E.map (·.1) = acc.map (·.1) ++ k :: ks := by rw [hk]; simp
+  have hmem : (k, v) ∈ E := by rw [hX]; simp
+  refine ⟨hkeys, ⟨(k, v) :: X, by rw [hX]; simp⟩, ?_, ?_⟩
+  · intro kv hkv
+    rcases hB kv hkv with rfl | h
+    · exact hmem
+    · exact hb kv h
+  · intro k' t' h
+    simp only [List.zip_cons_cons, List.mem_cons] at h
+    rcases h with h | h
+    · cases h
+      have h1 : lookup E k = some v := lookup_eq_some_of_mem (by rw [hkeys]; exact hn) hmem
+      have h2 : lookup E t' = some v := by
+        rw [hX, List.append_assoc]; exact lookup_append_of_some (hL t' rfl)
+      rw [h1, h2]; exact ⟨rfl, rfl⟩
+    · exact hlk k' t' h
+
+theorem earlier_shift {k : String} {ks : List String} {d : Dist} {ds : List Dist} {S : List String}
+    (he : ∀ (i : Nat) (t : String), (d :: ds)[i]? = some (Dist.link t) →
+      t ∈ S ∨ ∃ j : Nat, j < i ∧ (k :: ks)[j]? = some t) :
+    ∀ (i : Nat) (t : String), ds[i]? = some (Dist.link t) → t ∈ S ++ [k] ∨ ∃ j : Nat, j < i ∧ ks[j]? = some t := by
+  intro i t hi
+  rcases he (i + 1) t (by simpa using hi) with h | ⟨j, hj, hkj⟩
+  · left; simp [h]
+  · cases j with
+    | zero => left; simp at hkj; simp [hkj]
+    | succ j => right; exact ⟨j, by omega, by simpa using hkj⟩
+
+theorem eval_spec (ks : List String) (ds : List Dist) (us : List Rat) (acc : List (String × Rat))
+    (hl : ks.length = ds.length) (hu : us.length = (ds.filter Dist.isFree).length)
+    (hn : (acc.map (·.1) ++ ks).Nodup)
+    (he : ∀ (i : Nat) (t : String), ds[i]? = some (Dist.link t) →
+      t ∈ acc.map (·.1) ∨ ∃ j : Nat, j < i ∧ ks[j]? = some t) :
+    EvalOK ks ds us acc (Spec.eval (toDecls ks ds) us acc) := by
+  induction ks generalizing ds us acc with
+  | nil =>
+    cases ds with
+    | nil => exact ⟨by simp [toDecls, Spec.eval], ⟨[], by simp [toDecls, Spec.eval]⟩, by simp [baseVals], by simp⟩
+    | cons _ _ => simp at hl
+  | cons k ks ih =>
+    cases ds with
+    | nil => simp at hl
+    | cons d ds =>
+      have hl' : ks.length = ds.length := by simpa using hl
+      have hn' : ∀ v : Rat, ((acc ++ [(k, v)]).map (·.1) ++ ks).Nodup := by
+        intro v; simpa [List.append_assoc] using hn
+      have he' : ∀ v : Rat, ∀ (i : Nat) (t : String), ds[i]? = some (Dist.link t) →
+          t ∈ (acc ++ [(k, v)]).map (·.1) ∨ ∃ j : Nat, j < i ∧ ks[j]? = some t := by
+        intro v i t hi
+        have := earlier_shift he i t hi
+        simpa using this
+      cases d with
+      | free a b =>
+        cases us with
+        | nil => simp [List.filter, Dist.isFree] at hu
+        | cons x us =>
+          simp [List.filter, Dist.isFree] at hu
+          simp only [toDecls, Spec.eval]
+          refine evalOK_step (v := a + b * x) (us' := us) (ih ds us _ hl' hu (hn' _) (he' _)) ?_ ?_ hn
+          · intro kv hkv; simpa [baseVals] using hkv
+          · intro t ht; cases ht
+      | fixed v =>
+        simp [List.filter, Dist.isFree] at hu
+        simp only [toDecls, Spec.eval]
+        refine evalOK_step (v := v) (us' := us) (ih ds us _ hl' hu (hn' _) (he' _)) ?_ ?_ hn
+        · intro kv hkv; simpa [baseVals] using hkv
+        · intro t ht; cases ht
+      | link t =>
+        simp [List.filter, Dist.isFree] at hu
+        have htm : t ∈ acc.map (·.1) := by
+          rcases he 0 t (by simp) with h | ⟨j, hj, _⟩
+          · exact h
+          · omega
+        obtain ⟨v, hv⟩ := Option.isSome_iff_exists.mp (lookup_isSome_of_mem_keys htm)
+        simp only [toDecls, Spec.eval, hv]
+        refine evalOK_step (v := v) (us' := us) (ih ds us _ hl' hu (hn' _) (he' _)) ?_ ?_ hn
+        · intro kv hkv; right; simpa [baseVals] using hkv
+        · intro t' ht; cases ht; exact hv
+
+theorem dict_spec_wf {p : Prior} (hp : WF p) (u : List Rat)
+    (h : u.length = dimensionality p) (hpos : 0 < u.length) :
+    ∃ d, unitToDictionary p u = .ok d ∧ (d.map (·.1)).Perm p.keys ∧
+      ∀ k, lookup d k = lookup (Spec.eval (toDecls p.keys p.dists) u []) k := by
+  obtain ⟨Y, hY, hperm, hYl⟩ := loops_spec hp u h
+  have hlv := fun k t => link_value_wf hp u _ (dict_ok h hpos hY) k t
+  obtain ⟨hn, hl, hlk⟩ := hp
+  refine ⟨_, dict_ok h hpos hY, hperm, ?_⟩
+  obtain ⟨hEk, _, hEb, hEl⟩ := eval_spec p.keys p.dists u [] hl h (by simpa using hn)
+    (fun i t hi => by
+      obtain ⟨j, hj, hkj, _⟩ := hlk i t hi
+      exact Or.inr ⟨j, hj, hkj⟩)
+  generalize Spec.eval (toDecls p.keys p.dists) u [] = E at hEk hEb hEl
+  generalize hd : baseVals p.keys p.dists u ++ Y = d at hperm hlv
+  simp only [List.map_nil, List.nil_append] at hEk
+  have hdn : (d.map (·.1)).Nodup := hperm.nodup_iff.mpr hn
+  have hEn : (E.map (·.1)).Nodup := by rw [hEk]; exact hn
+  have hkeys := baseVals_keys p.keys p.dists u h
+  -- non-link keys agree
+  have hnl : ∀ (k : String) (dd : Dist), (k, dd) ∈ p.keys.zip p.dists → dd.isLink = false →
+      lookup d k = lookup E k := by
+    intro k dd hm hdd
+    have : k ∈ (baseVals p.keys p.dists u).map (·.1) := by rw [hkeys]; exact mem_nlKeys hm hdd
+    obtain ⟨⟨k', v⟩, hkv, rfl⟩ := List.mem_map.mp this
+    rw [lookup_eq_some_of_mem hdn (by rw [← hd]; exact List.mem_append_left _ hkv),
+      lookup_eq_some_of_mem hEn (hEb _ hkv)]
+  intro k
+  by_cases hk : k ∈ p.keys
+  · obtain ⟨i, hi⟩ := List.mem_iff_getElem?.mp hk
+    have hil : i < p.dists.length := by
+      rw [← hl]; exact (List.getElem?_eq_some_iff.mp hi).1
+    have hdi : p.dists[i]? = some p.dists[i] := List.getElem?_eq_getElem hil
+    cases hdd : p.dists[i] with
+    | link t =>
+      rw [hdd] at hdi
+      have hm := mem_zip_of_getElem? hi hdi
+      obtain ⟨j, _, hkj, d', hd', hdl'⟩ := hlk i t hdi
+      rw [(hlv k t hm).1, (hEl k t hm).1]
+      exact hnl t d' (mem_zip_of_getElem? hkj hd') hdl'
+    | free a b =>
+      rw [hdd] at hdi
+      exact hnl k _ (mem_zip_of_getElem? hi hdi) rfl
+    | fixed v =>
+      rw [hdd] at hdi
+      exact hnl k _ (mem_zip_of_getElem? hi hdi) rfl
+  · rw [lookup_eq_none (d := d), lookup_eq_none (d := E)]
+    · rw [hEk]; exact hk
+    · exact fun hm => hk (hperm.mem_iff.mp hm)
+
+theorem dict_spec (ops : List (KeyArg × DistArg)) (u : List Rat)
+    (h : u.length = dimensionality (exec {} ops)) (hpos : 0 < u.length) :
+    ∃ d, unitToDictionary (exec {} ops) u = .ok d ∧ (d.map (·.1)).Perm (exec {} ops).keys ∧
+      ∀ k, lookup d k = lookup (Spec.eval (toDecls (exec {} ops).keys (exec {} ops).dists) u []) k :=
+  dict_spec_wf (wf_exec wf_empty ops) u h hpos
 
 end NautilusVerif.PriorModel
+
+#print axioms NautilusVerif.PriorModel.add_atomic
+#print axioms NautilusVerif.PriorModel.exec_wf
+#print axioms NautilusVerif.PriorModel.dim_step
+#print axioms NautilusVerif.PriorModel.physical_spec
+#print axioms NautilusVerif.PriorModel.dict_spec
+#print axioms NautilusVerif.PriorModel.link_value
+#print axioms NautilusVerif.PriorModel.add_rejects
+#print axioms NautilusVerif.PriorModel.add_no_indexError
+#print axioms NautilusVerif.PriorModel.range_shape
